@@ -46,6 +46,22 @@ class C08(PropBase):
                     out.append(Case('match', [['s', e], qa], 'match', {}))
                     out.append(Case('find_list', [[e], qa], 'find', {}))
                     break
+            # match() against a ',' list whose SECOND alternative is the Sid's own value (a comma before any star)
+            for e in rng.sample(items_s, min(3, len(items_s))):
+                if not e or _nat0(v, e) is None or any(ch in e for ch in '*>,[\n'):
+                    continue
+                segs = e.split('/')
+                i = rng.randrange(len(segs))
+                others = sorted(set(x.split('/')[i] for x in items_s if len(x.split('/')) > i and x.split('/')[i] != segs[i] and x.split('/')[i]
+                                    and not any(ch in x.split('/')[i] for ch in '*>,[?:\n ')))
+                alt = rng.choice(others) if others else rng.choice(ls.NAMES)
+                q2 = list(segs)
+                q2[i] = alt + ',' + segs[i]
+                for j in range(i + 1, len(q2)):
+                    if rng.random() < 0.3:
+                        q2[j] = '*'
+                out.append(Case('match', [['s', e], '/'.join(q2)], 'match', {}))
+                out.append(Case('find_list', [[e], '/'.join(q2)], 'find', {}))
             # an alias name used as an ordinary (open) value in last position: the last segment still expands
             if v.alias and rng.random() < 0.5:
                 al = rng.choice(list(v.alias))
